@@ -64,7 +64,26 @@ SUMMARY = {
            "append of an id with a higher term but a strictly lower index than last"),
  "C16-2": ("C16", "RaftLog::purge: debug_assert that the first key left in the index is upto.index+1 (or the index is empty).",
            "log starting above purged+1 (first append at a non-zero index, or truncate to empty then append elsewhere) and a purge strictly below first_held-1"),
+ "R2-C02": ("C02", "reopen_last_closed() returns None (dropping the popped chunk) when the last chunk is already at or over the new limits ('don't append to a full chunk'): the chunk is in neither closed nor open after the restart.",
+            "a restart with chunk limits lowered to at most the fill of the last chunk (or chunk_max_records <= 1); later a read under cache pressure fails with Chunk not found"),
+ "R2-C03": ("C03", "FlushWorker splits a write batch at the FIRST request with sync (position instead of rposition): write(req1), fdatasync, write(req2..N), then Ok to every callback.",
+            "worker lagging so that >= 2 Write requests land in one batch, and a power loss after the ack of a non-first request"),
+ "R2-C04": ("C04", "the batch's sync result is sent with std::mem::replace(&mut reply, Ok(())): only the first callback of a failed batch sees the error.",
+            ">= 2 flushes with callbacks in one worker batch AND that batch's fdatasync failing"),
+ "R2-C05": ("C05", "verify_trailing_zeros does one read of at most 64 KiB and returns true only if it reached EOF.",
+            "power loss between write and fdatasync on the newest chunk with the unsynced range zero-filled, longer than 65536 bytes, after at least one complete record"),
+ "R2-C07": ("C07", "dump_data() keeps the store's live Arc<RwLock<PayloadCache>> instead of a copy.",
+            "a snapshot taken while an entry is in the open chunk, then rotation + sync moving the boundary past it, an insert into a tiny cache evicting it, and only then iteration of the snapshot"),
+ "R2-C08": ("C08", "last_sync_failed is assigned inside sync_all_files after the newest file's sync; a failure in the older-files loop returns early and leaves the flag false, so the queued RemoveChunks unlinks although the purge record was never synced.",
+            "the purge flush is the first sync round after a rotation (sync list holds > 1 file) and the fdatasync of an OLDER file fails in that round"),
+ "R2-C11": ("C11", "truncate() returns early without journalling when index == last.index + 1 (mirroring purge's early return).",
+            "exactly truncate(last+1) (also truncate(0) on an empty log, truncate(purged+1) when everything is purged)"),
+ "R2-C14": ("C14", "RaftLogWAL::drop polls is_finished() for at most 1 s of (wall-)clock time and returns without joining if the worker has not quit.",
+            "the old worker needing more than 1 s (slow unlink/fdatasync) for the RemoveChunks queued behind the acknowledged flush; needs a simulated clock and slow-disk delays to be seen deterministically"),
+ "R2-C15": ("C15", "PayloadCache::try_evict loops at most 16 times per insert.",
+            "more than 16 entries becoming evictable between two appends (a closed chunk with > 16 cached entries synced while the limits are tiny)"),
 }
+
 
 base = subprocess.check_output(["git", "-C", "/repo", "rev-parse", "--short", "HEAD"]).decode().strip()
 for sid, (prop, what, needs) in sorted(SUMMARY.items()):
